@@ -2,10 +2,39 @@
 C14 — interpolated powertrain predictions stay faithful to the underlying model.
 
 Model: `Compass/Model/Interp.lean` (`find_nearest_index`, `linspace`, `Interp1D/2D/3D/ND::linear`,
-`Interpolator::{validate_inputs,interpolate}`, `InterpolationSpeedGradeModel::{new,predict}`), tied to
-the Rust code by the bit-exact correspondence run of `harness/src/c14.rs`.
-All theorems are over an arbitrary linearly ordered field (exact arithmetic; IEEE rounding is in the
-trusted base).  `underlying : α → α → α` is the underlying prediction model, an arbitrary function.
+`Interpolator::{validate_inputs,interpolate}`, `InterpolationSpeedGradeModel::{new,predict}`,
+`SmartcoreSpeedGradeModel::predict`, `load_prediction_model`, `PredictionModelRecord::predict`), tied to the
+Rust code by the bit-exact correspondence run of `harness/src/c14.rs`.
+
+EXACT ARITHMETIC.  Every theorem is over an arbitrary linearly ordered field.  The Rust code computes in
+`f64`; for the statements that depend on rounding the theorems say what holds of the formulas, not of the
+doubles.  Evaluating the model at `Float` (which the differential run shows bit-identical to the code):
+* `bilinear_between_corners`: on doubles only up to rounding (a constant 0.1 table gives some predictions
+  1 ulp above the corner value); the harness oracle checks it with a 1e-9 relative tolerance;
+* `grid_spans_bounds`: on doubles the last grid value is the running sum `x0 + dx + … + dx`, a few ulp off
+  the configured upper bound (`linspace(-0.2, 0.2, 21)` ends 2 ulp short) — clamping uses the actual first
+  and last grid value, so `clamp_outside` is not affected;
+* `new_succeeds`: on doubles increasing bounds can produce a repeated grid value (`1e16, 1e16+2`, 3 bins) and
+  `new` then returns the not-sorted error;
+* `multilinear_exact_*`, `nd_agrees_*`: equalities of exact values; on doubles up to rounding (the N-D and
+  fixed-dimension code do perform the same operations in the same order, which the differential run shows).
+`exact_on_grid`, `predict_never_fails`, `clamp_outside`, `rejects_outside_*`, the never-panics theorems and
+`index_brackets` do not depend on rounding (fractions 0 and a/a = 1 are exact; they are statements about
+comparisons and control flow).
+
+MODELLED RATHER THAN VERIFIED (outside every theorem; evidence is the differential run where stated):
+* NaN: no value of a linear order is NaN.  The `is_nan` guard of `InterpND::linear` is in the model and
+  exercised by the run (NaN tables), but no theorem speaks about it; NaN *inputs* to `predict`
+  (`f64::max/min` return the non-NaN argument, the model's `fmax/fmin` would not) are not modelled;
+* the random forest is a total function `rf speed grade` / `underlying speed grade`: the error arm of
+  `rf.predict(..)` in `SmartcoreSpeedGradeModel::predict` and of `model.predict(..)?` while `new` fills the
+  grid are not modelled (smartcore's `predict` on a 1x2 matrix does not fail; never observed in the run);
+* `fileOk : Bool` stands for "the model file can be read and deserialised" (bincode / file system);
+* `PredictionModelRecord::predict` is modelled without a cache (`cache = None`); the cache is C08's;
+* the bundled vehicle models themselves (quantifier Q4 of the property) appear only in the differential run;
+  the theorems quantify over every function `rf`;
+* theorems that hold by construction of the model (`smartcore_predict_def`, `record_predict_def`) are marked
+  as such; for them the evidence that the *code* behaves so is the differential run.
 -/
 import Compass.Proofs.Interp
 
@@ -230,6 +259,74 @@ theorem border_values_agree (underlying : α → α → α) (x0 x1 x2 y0 y1 q : 
   rw [e1, e2]
   simp [lerp_zero, lerp_one]
 
+/-- within one closed cell the formula is Lipschitz in the speed coordinate, with the constant read off the
+corner values: `|v(p,q) − v(p',q)| ≤ |p − p'| / (x1 − x0) · max(|u10 − u00|, |u11 − u01|)`.  With
+`continuous_across_cells` (the prediction *is* this formula on every closed cell containing the input, so the
+pieces agree on common borders) this is continuity of the prediction in the ε–δ sense, cell by cell; no
+topological `Continuous` statement is proved (the theorems are over an arbitrary ordered field). -/
+theorem cell_value_lipschitz_speed (underlying : α → α → α) (x0 x1 y0 y1 p p' q : α) (hx : x0 < x1)
+    (hy : y0 < y1) (hq0 : y0 ≤ q) (hq1 : q ≤ y1) :
+    |cellValue underlying x0 x1 y0 y1 p q - cellValue underlying x0 x1 y0 y1 p' q| ≤
+      |p - p'| / (x1 - x0) *
+        max |underlying x1 y0 - underlying x0 y0| |underlying x1 y1 - underlying x0 y1| := by
+  have hxp : 0 < x1 - x0 := by linarith
+  have hyp : 0 < y1 - y0 := by linarith
+  have hd0 : 0 ≤ (q - y0) / (y1 - y0) := div_nonneg (by linarith) (le_of_lt hyp)
+  have hd1 : (q - y0) / (y1 - y0) ≤ 1 := by rw [div_le_one hyp]; linarith
+  have e : cellValue underlying x0 x1 y0 y1 p q - cellValue underlying x0 x1 y0 y1 p' q =
+      (p - p') / (x1 - x0) * lerp (underlying x1 y0 - underlying x0 y0)
+        (underlying x1 y1 - underlying x0 y1) ((q - y0) / (y1 - y0)) := by
+    unfold cellValue
+    simp only [lerp_eq]
+    field_simp
+    ring
+  have hM := lerp_mono_bounds (underlying x1 y0 - underlying x0 y0) (underlying x1 y1 - underlying x0 y1)
+    ((q - y0) / (y1 - y0))
+    (-(max |underlying x1 y0 - underlying x0 y0| |underlying x1 y1 - underlying x0 y1|))
+    (max |underlying x1 y0 - underlying x0 y0| |underlying x1 y1 - underlying x0 y1|) hd0 hd1
+    ⟨by have := neg_abs_le (underlying x1 y0 - underlying x0 y0)
+        have := le_max_left |underlying x1 y0 - underlying x0 y0| |underlying x1 y1 - underlying x0 y1|
+        linarith,
+     le_trans (le_abs_self _) (le_max_left _ _)⟩
+    ⟨by have := neg_abs_le (underlying x1 y1 - underlying x0 y1)
+        have := le_max_right |underlying x1 y0 - underlying x0 y0| |underlying x1 y1 - underlying x0 y1|
+        linarith,
+     le_trans (le_abs_self _) (le_max_right _ _)⟩
+  rw [e, abs_mul, abs_div, abs_of_pos hxp]
+  exact mul_le_mul_of_nonneg_left (abs_le.mpr hM) (div_nonneg (abs_nonneg _) (le_of_lt hxp))
+
+/-- … and in the grade coordinate -/
+theorem cell_value_lipschitz_grade (underlying : α → α → α) (x0 x1 y0 y1 p q q' : α) (hx : x0 < x1)
+    (hy : y0 < y1) (hp0 : x0 ≤ p) (hp1 : p ≤ x1) :
+    |cellValue underlying x0 x1 y0 y1 p q - cellValue underlying x0 x1 y0 y1 p q'| ≤
+      |q - q'| / (y1 - y0) *
+        max |underlying x0 y1 - underlying x0 y0| |underlying x1 y1 - underlying x1 y0| := by
+  have hxp : 0 < x1 - x0 := by linarith
+  have hyp : 0 < y1 - y0 := by linarith
+  have hd0 : 0 ≤ (p - x0) / (x1 - x0) := div_nonneg (by linarith) (le_of_lt hxp)
+  have hd1 : (p - x0) / (x1 - x0) ≤ 1 := by rw [div_le_one hxp]; linarith
+  have e : cellValue underlying x0 x1 y0 y1 p q - cellValue underlying x0 x1 y0 y1 p q' =
+      (q - q') / (y1 - y0) * lerp (underlying x0 y1 - underlying x0 y0)
+        (underlying x1 y1 - underlying x1 y0) ((p - x0) / (x1 - x0)) := by
+    unfold cellValue
+    simp only [lerp_eq]
+    field_simp
+    ring
+  have hM := lerp_mono_bounds (underlying x0 y1 - underlying x0 y0) (underlying x1 y1 - underlying x1 y0)
+    ((p - x0) / (x1 - x0))
+    (-(max |underlying x0 y1 - underlying x0 y0| |underlying x1 y1 - underlying x1 y0|))
+    (max |underlying x0 y1 - underlying x0 y0| |underlying x1 y1 - underlying x1 y0|) hd0 hd1
+    ⟨by have := neg_abs_le (underlying x0 y1 - underlying x0 y0)
+        have := le_max_left |underlying x0 y1 - underlying x0 y0| |underlying x1 y1 - underlying x1 y0|
+        linarith,
+     le_trans (le_abs_self _) (le_max_left _ _)⟩
+    ⟨by have := neg_abs_le (underlying x1 y1 - underlying x1 y0)
+        have := le_max_right |underlying x0 y1 - underlying x0 y0| |underlying x1 y1 - underlying x1 y0|
+        linarith,
+     le_trans (le_abs_self _) (le_max_right _ _)⟩
+  rw [e, abs_mul, abs_div, abs_of_pos hyp]
+  exact mul_le_mul_of_nonneg_left (abs_le.mpr hM) (div_nonneg (abs_nonneg _) (le_of_lt hyp))
+
 /-- C14: an input outside the grid is treated as the nearest grid boundary: the prediction equals the
 prediction at the clamped point (given in the model's own units) … -/
 theorem clamp_outside (underlying : α → α → α) (su : SpeedUnit) (s0 s1 : α) (sb : Nat)
@@ -441,53 +538,73 @@ theorem rejects_outside_3d (x y z : List α) (f : List (List (List α))) (hx : x
     Interpolator.interpolate (.d3 x y z f) [p0, p1, p2] s = .err .outside :=
   interpolate_d3_out x y z f p0 p1 p2 s hx hy hz h
 
-/-- N-D: a point of the right dimensionality with some coordinate outside its axis is rejected -/
-theorem rejects_outside_nd (m : ND α) (G : List Nat → α)
-    (hgrids : List.Forall₂ (fun g s => (strictlyIncreasing g = true ∧ 2 ≤ g.length) ∧ g.length = s) m.grid m.shape)
-    (hget : ∀ ix, List.Forall₂ (· < ·) ix m.shape → m.get ix = .ok (G ix))
-    (pt : List α) (s : Strategy) (hl : pt.length = m.grid.length) (h : ¬ List.Forall₂ InAxis m.grid pt) :
+/-- N-D: on every interpolator `InterpND::new` accepts that has a dimension (`0 < ndim`: more than a
+single value), a point of the right dimensionality with some coordinate outside its axis is rejected —
+whatever the table holds, one-point axes included -/
+theorem rejects_outside_nd (m : ND α) (hv : validateN m = .ok ()) (hpos : 0 < m.ndim)
+    (pt : List α) (s : Strategy) (hl : pt.length = m.ndim) (h : ¬ List.Forall₂ InAxis m.grid pt) :
     Interpolator.interpolate (.dn m) pt s = .err .outside :=
-  interpolate_dn_out m G pt s ⟨hgrids, hget⟩ hl h
+  interpolate_dn_out_constructed m hv hpos pt s hl h
 
 end
 
-/-! ### repaired defects, now theorems for all inputs
+/-! ### no panics: constructors and the validated entry point, every dimension
 
 Before the repairs (`fixed:` lines of known_findings.txt) these were `…_counterexample` theorems on the
-faithful model; the witnesses stay below as regression examples. -/
+faithful model — one-point axes in 2-D/3-D, a short grid vector in `InterpND::new`, and an N-D interpolator
+over a single value (`ndim() = 0`) on which `linear` looped over the array's own dimensionality.  The
+witnesses stay below as regression examples. -/
 
 section
 variable {α : Type} [Field α] [LinearOrder α] [IsStrictOrderedRing α] [Lit α] [LawfulLit α]
 
-/-- every 2-D interpolator `Interp2D::new` accepts has at least two points on each axis, and
-`Interpolator::interpolate` on it never panics: a value or an `Err` for every point (any length, inside,
-on the boundary, outside) and every strategy -/
-theorem validated_interpolation_never_panics_2d (x y : List α) (f : List (List α))
-    (hv : validate2 x y f = .ok ()) (pt : List α) (s : Strategy) :
-    (2 ≤ x.length ∧ 2 ≤ y.length) ∧
-      ((∃ v, Interpolator.interpolate (.d2 x y f) pt s = .ok v) ∨
-        (∃ e, Interpolator.interpolate (.d2 x y f) pt s = .err e)) := by
-  obtain ⟨hlx, hly, _⟩ := (validate2_ok_iff x y f).mp hv
-  exact ⟨⟨hlx, hly⟩, interpolate_d2_graceful x y f hv pt s⟩
+/-- an interpolator as its constructor returns it (`Interp0D` has none; `InterpND` wraps an `ArrayD`, which
+holds a value at every index of its shape — `m.get` is the model's accessor) -/
+def Constructed : Interpolator α → Prop
+  | .d0 _ => True
+  | .d1 x f => validate1 x f = .ok ()
+  | .d2 x y f => validate2 x y f = .ok ()
+  | .d3 x y z f => validate3 x y z f = .ok ()
+  | .dn m => validateN m = .ok () ∧ ∀ ix, List.Forall₂ (· < ·) ix m.shape → ∃ v, m.get ix = .ok v
 
-/-- the same in three dimensions -/
-theorem validated_interpolation_never_panics_3d (x y z : List α) (f : List (List (List α)))
-    (hv : validate3 x y z f = .ok ()) (pt : List α) (s : Strategy) :
-    (2 ≤ x.length ∧ 2 ≤ y.length ∧ 2 ≤ z.length) ∧
-      ((∃ v, Interpolator.interpolate (.d3 x y z f) pt s = .ok v) ∨
-        (∃ e, Interpolator.interpolate (.d3 x y z f) pt s = .err e)) :=
-  ⟨(validate3_ok hv).1, interpolate_d3_graceful x y z f hv pt s⟩
+/-- `Interpolator::interpolate` never panics on a constructed interpolator of any dimension — 0, 1, 2, 3, N,
+one-point axes (1-D, N-D) and single values (N-D) included: a value or an `Err` for every point (any
+length; inside, on the boundary, outside) and every strategy -/
+theorem validated_interpolation_never_panics (it : Interpolator α) (h : Constructed it) (pt : List α)
+    (s : Strategy) :
+    (∃ v, it.interpolate pt s = .ok v) ∨ (∃ e, it.interpolate pt s = .err e) := by
+  cases it with
+  | d0 v =>
+    cases pt with
+    | nil =>
+      by_cases hs : s = .none
+      · exact Or.inl ⟨v, by simp [Interpolator.interpolate, Interpolator.validateInputs, Interpolator.ndim, Res.bind, hs]⟩
+      · exact Or.inr ⟨.strategy, by simp [Interpolator.interpolate, Interpolator.validateInputs, Interpolator.ndim, Res.bind, hs]⟩
+    | cons _ _ =>
+      exact Or.inr ⟨.pointLen, by simp [Interpolator.interpolate, Interpolator.validateInputs, Interpolator.ndim, Res.bind]⟩
+  | d1 x f => exact interpolate_d1_graceful x f h pt s
+  | d2 x y f => exact interpolate_d2_graceful x y f h pt s
+  | d3 x y z f => exact interpolate_d3_graceful x y z f h pt s
+  | dn m => exact interpolate_dn_graceful m h.1 h.2 pt s
 
-/-- the 2-D and 3-D constructors themselves never panic -/
-theorem new_2d_3d_never_panic (x y z : List α) (f2 : List (List α)) (f3 : List (List (List α))) :
+/-- the 2-D and 3-D constructors accept only axes with at least two points (a one-point axis used to be
+accepted and every interpolation on it panicked); 1-D and N-D do accept one-point axes, and work on them -/
+theorem constructed_2d_3d_have_two_points (x y z : List α) (f2 : List (List α)) (f3 : List (List (List α))) :
+    (validate2 x y f2 = .ok () → 2 ≤ x.length ∧ 2 ≤ y.length) ∧
+      (validate3 x y z f3 = .ok () → 2 ≤ x.length ∧ 2 ≤ y.length ∧ 2 ≤ z.length) := by
+  constructor
+  · intro hv
+    obtain ⟨hlx, hly, _⟩ := (validate2_ok_iff x y f2).mp hv
+    exact ⟨hlx, hly⟩
+  · intro hv; exact (validate3_ok hv).1
+
+/-- the constructors themselves never panic (2-D, 3-D, N-D; 1-D's `validate` is a plain if-chain) -/
+theorem constructors_never_panic (x y z : List α) (f2 : List (List α)) (f3 : List (List (List α)))
+    (m : ND α) :
     (validate2 x y f2 = .ok () ∨ ∃ e, validate2 x y f2 = .err e) ∧
-      (validate3 x y z f3 = .ok () ∨ ∃ e, validate3 x y z f3 = .err e) :=
-  ⟨validate2_graceful x y f2, validate3_graceful x y z f3⟩
-
-/-- `InterpND::new` never panics: for every grid vector (short, empty, with empty axes) and every shape it
-accepts or returns an error -/
-theorem nd_new_never_panics (m : ND α) : validateN m = .ok () ∨ ∃ e, validateN m = .err e :=
-  validateN_graceful m
+      (validate3 x y z f3 = .ok () ∨ ∃ e, validate3 x y z f3 = .err e) ∧
+      (validateN m = .ok () ∨ ∃ e, validateN m = .err e) :=
+  ⟨validate2_graceful x y f2, validate3_graceful x y z f3, validateN_graceful m⟩
 
 end
 
@@ -498,7 +615,9 @@ end
 section
 variable {α : Type} [Field α] [LinearOrder α] [IsStrictOrderedRing α] [Lit α] [LawfulLit α]
 
-/-- `SmartcoreSpeedGradeModel::predict` is the forest at the inputs converted to the model's units, tagged
+/-- (by construction of the model — first conjunct is its definition; that the *code* does this is evidenced
+by the differential run over every unit pair, oracle key `smartcore/unit_conversion`)
+`SmartcoreSpeedGradeModel::predict` is the forest at the inputs converted to the model's units, tagged
 with the model's rate unit; with the model's own units the inputs are passed through unchanged -/
 theorem smartcore_predict_def (rf : α → α → α) (su : SpeedUnit) (gu : GradeUnit) (ru : EnergyRateUnit)
     (speed : α) (qsu : SpeedUnit) (grade : α) (qgu : GradeUnit) :
@@ -520,18 +639,26 @@ theorem load_rejects_onnx (rf : α → α → α) (fileOk : Bool) (mt : ModelTyp
     loadPredictionModel rf fileOk mt su gu ru ideal adj = .err .build :=
   load_onnx rf fileOk mt h su gu ru ideal adj
 
-/-- the `Smartcore` arm always loads a readable file: the record carries the configured units, the
-smartcore model, the configured ideal rate — or, when none is configured, a rate that is at most every
-prediction of the 20..79 mph sweep — and the configured adjustment, or 1 -/
+/-- the ideal rate of a loaded record: the configured one; or, when none is configured, the minimum of the
+20..79 mph sweep at zero grade — at most every swept prediction, and attained by one of them (or `f64::MAX`
+when no swept prediction is below it) -/
+def IdealRateOk (r : Record α) (ideal : Option α) : Prop :=
+  (∀ x, ideal = some x → r.idealEnergyRate = x) ∧
+    (ideal = none →
+      (∀ i ∈ sweepSpeeds, ∀ v u,
+        r.model (ofNat i) .milesPerHour (zero : α) .percent = .ok (v, u) → r.idealEnergyRate ≤ v) ∧
+      (r.idealEnergyRate = f64Max ∨ ∃ i ∈ sweepSpeeds, ∃ u,
+        r.model (ofNat i) .milesPerHour (zero : α) .percent = .ok (r.idealEnergyRate, u)))
+
+/-- the `Smartcore` arm always loads a readable file (the forest is a total function in the model — see
+the header): the record carries the configured units, the smartcore model, the ideal rate (`IdealRateOk`)
+and the configured adjustment, or 1 -/
 theorem load_smartcore (rf : α → α → α) (su : SpeedUnit) (gu : GradeUnit) (ru : EnergyRateUnit)
     (ideal adj : Option α) :
     ∃ r, loadPredictionModel rf true .smartcore su gu ru ideal adj = .ok r ∧
       r.model = smartcorePredict rf su gu ru ∧ r.speedUnit = su ∧ r.gradeUnit = gu ∧
       r.energyRateUnit = ru ∧
-      r.realWorldEnergyAdjustment = (match adj with | some a => a | none => 1) ∧
-      (∀ x, ideal = some x → r.idealEnergyRate = x) ∧
-      (ideal = none → ∀ i ∈ sweepSpeeds, ∀ v u,
-        r.model (ofNat i) .milesPerHour (zero : α) .percent = .ok (v, u) → r.idealEnergyRate ≤ v) := by
+      r.realWorldEnergyAdjustment = (match adj with | some a => a | none => 1) ∧ IdealRateOk r ideal := by
   rw [load_smartcore_eq]
   cases ideal with
   | some x =>
@@ -540,7 +667,7 @@ theorem load_smartcore (rf : α → α → α) (su : SpeedUnit) (gu : GradeUnit)
     · intro y hy; cases hy; rfl
     · intro h; cases h
   | none =>
-    obtain ⟨v, hv, _, hall⟩ := findMinEnergyRateFrom_spec (smartcorePredict rf su gu ru)
+    obtain ⟨v, hv, _, hall, hatt⟩ := findMinEnergyRateFrom_spec (smartcorePredict rf su gu ru)
       (smartcorePredict_total rf su gu ru) sweepSpeeds f64Max
     refine ⟨{ model := smartcorePredict rf su gu ru, speedUnit := su, gradeUnit := gu, energyRateUnit := ru,
               idealEnergyRate := v,
@@ -549,70 +676,106 @@ theorem load_smartcore (rf : α → α → α) (su : SpeedUnit) (gu : GradeUnit)
     · simp only [findMinEnergyRate, hv]; rfl
     · cases adj <;> simp
     · intro y hy; cases hy
-    · intro _ i hi w u hw; exact hall i hi w u hw
+    · intro _; exact ⟨hall, hatt⟩
 
-/-- the `Interpolate` arm over a forest builds exactly `InterpolationSpeedGradeModel::new` over that forest
-with the configured speed bounds / bins and grade bounds / bins in their places — so every theorem of the
-speed/grade section (between corners, exact on grid, continuity, clamping, never fails) holds for the
-loaded model with `underlying := rf` -/
-theorem load_interpolate_is_new (rf : α → α → α) (su : SpeedUnit) (gu : GradeUnit) (ru : EnergyRateUnit)
-    (s0 s1 : α) (sb : Nat) (g0 g1 : α) (gb : Nat) (ideal adj : Option α) (r : Record α)
+/-- every record `load_prediction_model` returns — Smartcore, Interpolate, Interpolate of Interpolate, … —
+has a model that never fails: a rate in the configured unit for every speed, grade and input unit; and the
+record carries the configured units and adjustment -/
+theorem loaded_model_never_fails (rf : α → α → α) (mt : ModelType α) (su : SpeedUnit) (gu : GradeUnit)
+    (ru : EnergyRateUnit) (ideal adj : Option α) (r : Record α)
+    (h : loadPredictionModel rf true mt su gu ru ideal adj = .ok r) :
+    (∀ speed qsu grade qgu, ∃ v, r.model speed qsu grade qgu = .ok (v, ru)) ∧ r.speedUnit = su ∧
+      r.gradeUnit = gu ∧ r.energyRateUnit = ru ∧
+      r.realWorldEnergyAdjustment = (match adj with | some a => a | none => 1) := by
+  obtain ⟨h1, h2, h3, h4, h5⟩ := loaded_spec rf mt su gu ru ideal adj r h
+  refine ⟨h1, h2, h3, h4, ?_⟩
+  rw [h5]; cases adj <;> simp
+
+/-- the `Interpolate` arm over *any* underlying model type (a forest, or another interpolation, to any
+depth): the underlying model was loaded with the default ideal rate and adjustment, answers every grid
+query, and the loaded model is exactly `InterpolationSpeedGradeModel::new` over the underlying record's rates
+(`rateOf urec.model su gu`) with the configured speed bounds / bins and grade bounds / bins in their places —
+so every theorem of the speed/grade section (between corners, exact on grid, continuity, clamping, never
+fails) holds for the loaded model with `underlying := rateOf urec.model su gu` -/
+theorem load_interpolate_is_new (rf : α → α → α) (u : ModelType α) (su : SpeedUnit) (gu : GradeUnit)
+    (ru : EnergyRateUnit) (s0 s1 : α) (sb : Nat) (g0 g1 : α) (gb : Nat) (ideal adj : Option α) (r : Record α)
+    (h : loadPredictionModel rf true (.interpolate u s0 s1 sb g0 g1 gb) su gu ru ideal adj = .ok r) :
+    ∃ urec m, loadPredictionModel rf true u su gu ru none none = .ok urec ∧
+      (∀ s g, urec.model s su g gu = .ok (rateOf urec.model su gu s g, ru)) ∧
+      SpeedGradeModel.new (rateOf urec.model su gu) su s0 s1 sb gu g0 g1 gb ru = .ok m ∧
+      r.model = m.predict ∧ r.speedUnit = su ∧ r.gradeUnit = gu ∧ r.energyRateUnit = ru ∧
+      r.realWorldEnergyAdjustment = (match adj with | some a => a | none => 1) ∧ IdealRateOk r ideal := by
+  cases hu : loadPredictionModel rf true u su gu ru none none with
+  | ok urec =>
+    obtain ⟨htot, _, _, hru, hadj⟩ := loaded_spec rf u su gu ru none none urec hu
+    rw [load_interpolate_eq rf u su gu ru s0 s1 sb g0 g1 gb ideal adj urec hu htot hadj hru] at h
+    obtain ⟨m, hm, h⟩ := Res.bind_eq_ok h
+    have hmt := new_predict_total (rateOf urec.model su gu) su s0 s1 sb gu g0 g1 gb ru m hm
+    have htot' : ∀ s qsu g qgu, ∃ v w, m.predict s qsu g qgu = .ok (v, w) :=
+      fun s qsu g qgu => by obtain ⟨v, hv⟩ := hmt s qsu g qgu; exact ⟨v, ru, hv⟩
+    refine ⟨urec, m, rfl, ?_, hm, ?_⟩
+    · intro s g
+      obtain ⟨v, hv⟩ := htot s su g gu
+      simp [rateOf, hv]
+    · cases ideal with
+      | some x =>
+        simp only [Res.ok_bind, Res.ok.injEq] at h
+        subst h
+        refine ⟨rfl, rfl, rfl, rfl, ?_, ?_, ?_⟩
+        · cases adj <;> simp
+        · intro y hy; cases hy; rfl
+        · intro h; cases h
+      | none =>
+        obtain ⟨v, hv, _, hall, hatt⟩ := findMinEnergyRateFrom_spec m.predict htot' sweepSpeeds f64Max
+        simp only [findMinEnergyRate, hv, Res.ok_bind, Res.ok.injEq] at h
+        subst h
+        refine ⟨rfl, rfl, rfl, rfl, ?_, ?_, ?_⟩
+        · cases adj <;> simp
+        · intro y hy; cases hy
+        · intro _; exact ⟨hall, hatt⟩
+  | err e => unfold loadPredictionModel at h; simp only [hu, Res.err_bind] at h; cases h
+  | panic st => unfold loadPredictionModel at h; simp only [hu] at h; cases h
+  | diverges => unfold loadPredictionModel at h; simp only [hu] at h; cases h
+
+/-- … in particular directly over a forest the underlying rates are the forest itself -/
+theorem load_interpolate_over_forest_is_new (rf : α → α → α) (su : SpeedUnit) (gu : GradeUnit)
+    (ru : EnergyRateUnit) (s0 s1 : α) (sb : Nat) (g0 g1 : α) (gb : Nat) (ideal adj : Option α) (r : Record α)
     (h : loadPredictionModel rf true (.interpolate .smartcore s0 s1 sb g0 g1 gb) su gu ru ideal adj = .ok r) :
-    ∃ m, SpeedGradeModel.new rf su s0 s1 sb gu g0 g1 gb ru = .ok m ∧ r.model = m.predict ∧
-      r.speedUnit = su ∧ r.gradeUnit = gu ∧ r.energyRateUnit = ru ∧
-      r.realWorldEnergyAdjustment = (match adj with | some a => a | none => 1) ∧
-      (∀ x, ideal = some x → r.idealEnergyRate = x) ∧
-      (ideal = none → ∀ i ∈ sweepSpeeds, ∀ v u,
-        r.model (ofNat i) .milesPerHour (zero : α) .percent = .ok (v, u) → r.idealEnergyRate ≤ v) := by
-  rw [load_interpolate_smartcore_eq] at h
-  obtain ⟨m, hm, h⟩ := Res.bind_eq_ok h
-  have htot : ∀ s qsu g qgu, ∃ v u, m.predict s qsu g qgu = .ok (v, u) := by
-    intro s qsu g qgu
-    obtain ⟨v, hv⟩ := predict_never_fails rf su s0 s1 sb gu g0 g1 gb ru m hm s qsu g qgu
-    exact ⟨v, ru, hv⟩
-  refine ⟨m, hm, ?_⟩
-  cases ideal with
-  | some x =>
-    simp only [Res.ok_bind, Res.ok.injEq] at h
-    subst h
-    refine ⟨rfl, rfl, rfl, rfl, ?_, ?_, ?_⟩
-    · cases adj <;> simp
-    · intro y hy; cases hy; rfl
-    · intro h; cases h
-  | none =>
-    obtain ⟨v, hv, _, hall⟩ := findMinEnergyRateFrom_spec m.predict htot sweepSpeeds f64Max
-    simp only [findMinEnergyRate, hv, Res.ok_bind, Res.ok.injEq] at h
-    subst h
-    refine ⟨rfl, rfl, rfl, rfl, ?_, ?_, ?_⟩
-    · cases adj <;> simp
-    · intro y hy; cases hy
-    · intro _ i hi w u hw; exact hall i hi w u hw
+    ∃ m, SpeedGradeModel.new rf su s0 s1 sb gu g0 g1 gb ru = .ok m ∧ r.model = m.predict := by
+  obtain ⟨urec, m, hu, _, hm, hmod, _⟩ :=
+    load_interpolate_is_new rf .smartcore su gu ru s0 s1 sb g0 g1 gb ideal adj r h
+  obtain ⟨r', hr', hmodel, _⟩ := load_smartcore rf su gu ru none none
+  rw [hr'] at hu; cases hu
+  rw [hmodel, rateOf_smartcore] at hm
+  exact ⟨m, hm, hmod⟩
 
-/-- and it loads whenever the bounds increase and there are at least two bins per axis; with fewer bins it
-is an error, never a panic -/
-theorem load_interpolate_succeeds (rf : α → α → α) (su : SpeedUnit) (gu : GradeUnit) (ru : EnergyRateUnit)
-    (s0 s1 : α) (sb : Nat) (g0 g1 : α) (gb : Nat) (ideal adj : Option α) :
+/-- the `Interpolate` arm loads whenever its underlying model type loads, the bounds increase and there are
+at least two bins per axis; with fewer bins it is an error, never a panic -/
+theorem load_interpolate_succeeds (rf : α → α → α) (u : ModelType α) (su : SpeedUnit) (gu : GradeUnit)
+    (ru : EnergyRateUnit) (s0 s1 : α) (sb : Nat) (g0 g1 : α) (gb : Nat) (ideal adj : Option α)
+    (urec : Record α) (hu : loadPredictionModel rf true u su gu ru none none = .ok urec) :
     (s0 < s1 → g0 < g1 → 2 ≤ sb → 2 ≤ gb →
-      ∃ r, loadPredictionModel rf true (.interpolate .smartcore s0 s1 sb g0 g1 gb) su gu ru ideal adj = .ok r) ∧
+      ∃ r, loadPredictionModel rf true (.interpolate u s0 s1 sb g0 g1 gb) su gu ru ideal adj = .ok r) ∧
     (sb < 2 ∨ gb < 2 →
-      ∃ e, loadPredictionModel rf true (.interpolate .smartcore s0 s1 sb g0 g1 gb) su gu ru ideal adj = .err e) := by
+      ∃ e, loadPredictionModel rf true (.interpolate u s0 s1 sb g0 g1 gb) su gu ru ideal adj = .err e) := by
+  obtain ⟨htot, _, _, hru, hadj⟩ := loaded_spec rf u su gu ru none none urec hu
+  rw [load_interpolate_eq rf u su gu ru s0 s1 sb g0 g1 gb ideal adj urec hu htot hadj hru]
   constructor
   · intro hs hg hsb hgb
-    obtain ⟨m, hm⟩ := new_ok rf su s0 s1 sb gu g0 g1 gb ru hs hg hsb hgb
-    rw [load_interpolate_smartcore_eq, hm, Res.ok_bind]
+    obtain ⟨m, hm⟩ := new_ok (rateOf urec.model su gu) su s0 s1 sb gu g0 g1 gb ru hs hg hsb hgb
+    rw [hm, Res.ok_bind]
     cases ideal with
     | some x => exact ⟨_, rfl⟩
     | none =>
-      have htot : ∀ s qsu g qgu, ∃ v u, m.predict s qsu g qgu = .ok (v, u) := by
-        intro s qsu g qgu
-        obtain ⟨v, hv⟩ := predict_never_fails rf su s0 s1 sb gu g0 g1 gb ru m hm s qsu g qgu
-        exact ⟨v, ru, hv⟩
-      obtain ⟨v, hv, _, _⟩ := findMinEnergyRateFrom_spec m.predict htot sweepSpeeds f64Max
+      have hmt := new_predict_total (rateOf urec.model su gu) su s0 s1 sb gu g0 g1 gb ru m hm
+      have htot' : ∀ s qsu g qgu, ∃ v w, m.predict s qsu g qgu = .ok (v, w) :=
+        fun s qsu g qgu => by obtain ⟨v, hv⟩ := hmt s qsu g qgu; exact ⟨v, ru, hv⟩
+      obtain ⟨v, hv, _, _, _⟩ := findMinEnergyRateFrom_spec m.predict htot' sweepSpeeds f64Max
       simp only [findMinEnergyRate, hv, Res.ok_bind]
       exact ⟨_, rfl⟩
   · intro h
-    obtain ⟨e, he⟩ := new_rejects_short rf su s0 s1 sb gu g0 g1 gb ru h
-    rw [load_interpolate_smartcore_eq, he]
+    obtain ⟨e, he⟩ := new_rejects_short (rateOf urec.model su gu) su s0 s1 sb gu g0 g1 gb ru h
+    rw [he]
     exact ⟨e, rfl⟩
 
 /-- the interpolated model against the underlying model, both as loaded: at every grid point (given in the
@@ -625,14 +788,16 @@ theorem loaded_interpolation_matches_underlying_on_grid (rf : α → α → α) 
     (xs ys : List α) (hxs : linspace s0 s1 sb = .ok xs) (hys : linspace g0 g1 gb = .ok ys)
     (i j : Nat) (x y : α) (hx : xs[i]? = some x) (hy : ys[j]? = some y) :
     ri.model x su y gu = ru'.model x su y gu := by
-  obtain ⟨m, hm, hmod, _⟩ := load_interpolate_is_new rf su gu ru s0 s1 sb g0 g1 gb i1 a1 ri hi
+  obtain ⟨m, hm, hmod⟩ := load_interpolate_over_forest_is_new rf su gu ru s0 s1 sb g0 g1 gb i1 a1 ri hi
   obtain ⟨r, hr, hrm, _⟩ := load_smartcore rf su gu ru i2 a2
   rw [hr] at hu; cases hu
   rw [hmod, hrm, (smartcore_predict_def rf su gu ru x su y gu).2]
   exact exact_on_grid rf su s0 s1 sb gu g0 g1 gb ru m hm xs ys hxs hys i j x y hx hy x su y gu
     (speed_convert_self su x) (grade_convert_self gu y)
 
-/-- `PredictionModelRecord::predict` (no cache): the model's rate, times the real-world adjustment, times
+/-- (by construction of the model — an unfolding of `Record.predict`; that the *code* does this is evidenced
+by the differential run, oracle key `load/record_energy`)
+`PredictionModelRecord::predict` (no cache): the model's rate, times the real-world adjustment, times
 the distance expressed in the rate's own distance unit; in the rate's own energy unit -/
 theorem record_predict_def (r : Record α) (speed : α) (su : SpeedUnit) (grade : α) (gu : GradeUnit)
     (distance : α) (du : DistanceUnit) (rate : α) (u : EnergyRateUnit)
@@ -655,6 +820,17 @@ example : validateN { grid := [[(0 : ℚ), 1]], shape := [2, 2], get := getFlat 
     validateN { grid := ([] : List (List ℚ)), shape := [2], get := getFlat [2] [0, 1] } = .err .gridDim := by
   decide +kernel
 example : linspace (0 : ℚ) 1 0 = .ok [] := by decide +kernel
+/-- an N-D interpolator over a single value with no grid / an empty first grid: accepted, and the validated
+entry point answers the empty point with the value (it used to index `grid[dim]` out of bounds) -/
+example : validateN { grid := ([] : List (List ℚ)), shape := [1], get := getFlat [1] [7] } = .ok () ∧
+    Interpolator.interpolate (.dn { grid := ([] : List (List ℚ)), shape := [1], get := getFlat [1] [7] }) []
+      .linear = .ok 7 ∧
+    Interpolator.interpolate (.dn { grid := [[], [(1 : ℚ), 2]], shape := [1, 1], get := getFlat [1, 1] [7] }) []
+      .none = .ok 7 := by decide +kernel
+/-- 1-D and N-D accept one-point axes and work on them -/
+example : Interpolator.interpolate (.d1 [(5 : ℚ)] [1]) [5] .linear = .ok 1 ∧
+    Interpolator.interpolate (.dn { grid := [[(5 : ℚ)], [0, 1]], shape := [1, 2], get := getFlat [1, 2] [3, 4] })
+      [5, 1 / 2] .linear = .ok (7 / 2) := by decide +kernel
 
 /-! ### remaining defect of the code, machine-checked on the faithful model (ℚ) -/
 
@@ -697,6 +873,77 @@ example : (loadPredictionModel (fun (s g : ℚ) => s + 2 * g) true .smartcore
       (fun r => .ok (r.idealEnergyRate, r.realWorldEnergyAdjustment)) = .ok ((20 : ℚ), (2 : ℚ)) := by
   decide +kernel
 example : linspace (0 : ℚ) 1 5 = .ok [0, 1 / 4, 1 / 2, 3 / 4, 1] := by decide +kernel
+example : Interpolator.interpolate (.d3 [(0 : ℚ), 1] [0, 1] [0, 2] [[[0, 2], [1, 3]], [[1, 3], [2, 4]]])
+    [1 / 2, 1 / 2, 1] .linear = .ok 2 := by decide +kernel
+
+/-! ### non-vacuity: the theorems' hypotheses instantiated on realistic values -/
+
+/-- the bundled configuration (0..100 mph in 101 bins, grade -0.2..0.2 in 41 bins) over any underlying
+model: `new` returns a model (`hnew`), and the headline theorems apply to it for a query in other units -/
+example (underlying : ℚ → ℚ → ℚ) :
+    ∃ m v xs ys, SpeedGradeModel.new underlying .milesPerHour 0 100 101 .decimal (-1 / 5) (1 / 5) 41
+        .gallonsGasolinePerMile = .ok m ∧
+      linspace (0 : ℚ) 100 101 = .ok xs ∧ linspace (-1 / 5 : ℚ) (1 / 5) 41 = .ok ys ∧
+      m.predict 250 .kilometersPerHour 3 .percent = .ok (v, .gallonsGasolinePerMile) ∧
+      m.predict 250 .kilometersPerHour 3 .percent =
+        m.predict (clampTo xs (SpeedUnit.kilometersPerHour.convert .milesPerHour 250)) .milesPerHour
+          (clampTo ys (GradeUnit.percent.convert .decimal 3)) .decimal := by
+  obtain ⟨m, hm⟩ := new_succeeds underlying .milesPerHour (0 : ℚ) 100 101 .decimal (-1 / 5) (1 / 5) 41
+    .gallonsGasolinePerMile (by norm_num) (by norm_num) (by norm_num) (by norm_num)
+  obtain ⟨v, hv⟩ := predict_never_fails underlying .milesPerHour 0 100 101 .decimal (-1 / 5) (1 / 5) 41
+    .gallonsGasolinePerMile m hm 250 .kilometersPerHour 3 .percent
+  obtain ⟨xs, hxs⟩ := linspace_ok (0 : ℚ) 100 101
+  obtain ⟨ys, hys⟩ := linspace_ok (-1 / 5 : ℚ) (1 / 5) 41
+  exact ⟨m, v, xs, ys, hm, hxs, hys, hv, clamp_outside underlying .milesPerHour 0 100 101 .decimal (-1 / 5) (1 / 5) 41
+    .gallonsGasolinePerMile m hm xs ys hxs hys 250 .kilometersPerHour 3 .percent⟩
+
+/-- `multilinear_exact_nd` on a non-uniform grid with a non-constant multilinear function: every hypothesis
+(`hM`, `hgrids`, `hget`, `hp`) discharged on concrete data -/
+example : Interpolator.interpolate (.dn (nd2 [(0 : ℚ), 1, 3] [0, 2] [[0, 2], [1, 3], [3, 5]])) [2, 1] .linear
+    = .ok (0 + 1 * (2 : ℚ) + 1 * 1 + 0 * 2 * 1) := by
+  have gx : GoodGrid [(0 : ℚ), 1, 3] := ⟨by decide +kernel, by decide⟩
+  have gy : GoodGrid [(0 : ℚ), 2] := ⟨by decide +kernel, by decide⟩
+  have hr : Rect2 [[(0 : ℚ), 2], [1, 3], [3, 5]] [(0 : ℚ), 1, 3].length [(0 : ℚ), 2].length := by
+    refine ⟨by decide, ?_⟩
+    intro r hr; simp at hr; rcases hr with rfl | rfl | rfl <;> rfl
+  have V := nd2_valid [(0 : ℚ), 1, 3] [0, 2] [[0, 2], [1, 3], [3, 5]] gx gy hr
+  have := multilinear_exact_nd (nd2 [(0 : ℚ), 1, 3] [0, 2] [[0, 2], [1, 3], [3, 5]])
+    (fun v => 0 + 1 * v.getD 0 0 + 1 * v.getD 1 0 + 0 * v.getD 0 0 * v.getD 1 0)
+    (multiAffine_bilinear 0 1 1 0) V.grids (by
+      intro ix hix
+      rw [V.get_ok ix hix]
+      cases hix with
+      | cons h1 rest =>
+        cases rest with
+        | cons h2 rest2 =>
+          cases rest2
+          rename_i i j
+          simp at h1 h2
+          have hi : i = 0 ∨ i = 1 ∨ i = 2 := by omega
+          have hj : j = 0 ∨ j = 1 := by omega
+          rcases hi with rfl | rfl | rfl <;> rcases hj with rfl | rfl <;>
+            simp [G2, F2, coords, nd2] <;> norm_num) [2, 1]
+    (List.Forall₂.cons ⟨0, 3, by decide +kernel, by decide +kernel, by norm_num, by norm_num⟩
+      (List.Forall₂.cons ⟨0, 2, by decide +kernel, by decide +kernel, by norm_num, by norm_num⟩ List.Forall₂.nil))
+  simpa using this
+
+/-- `validated_interpolation_never_panics` on a constructed N-D interpolator over a single value -/
+example : ∀ pt s, (∃ v, Interpolator.interpolate
+      (.dn { grid := ([] : List (List ℚ)), shape := [1], get := getFlat [1] [7] }) pt s = .ok v) ∨
+    (∃ e, Interpolator.interpolate
+      (.dn { grid := ([] : List (List ℚ)), shape := [1], get := getFlat [1] [7] }) pt s = .err e) := by
+  intro pt s
+  have hc : Constructed (.dn { grid := ([] : List (List ℚ)), shape := [1], get := getFlat [1] [7] }) := by
+    refine ⟨by decide +kernel, ?_⟩
+    intro ix hix
+    cases hix with
+    | cons h rest =>
+      cases rest
+      rename_i i
+      have : i = 0 := by omega
+      subst this
+      exact ⟨7, by decide +kernel⟩
+  exact validated_interpolation_never_panics _ hc pt s
 
 end C14
 end Compass
